@@ -174,7 +174,8 @@ func registerMoreIntrinsics() {
 				return x.strConst("<nil>")
 			}
 			u := x.f.UF(fmt.Sprintf("%s_%d", name, len(args)), 8, args...)
-			return Str{[]*Term{u}}
+			// address notations use only hex digits, '.', ':' and '/': no byte that needs escaping
+			return Str{[]*Term{x.f.Bin(OpAdd, x.f.Const(8, 'a'), x.f.Bin(OpURem, u, x.f.Const(8, 6)))}}
 		}
 	}
 	in["(net.IP).String"] = netTok("tok_ip")
